@@ -404,6 +404,10 @@ Section Printer.
   Definition ctx_local_names := make_local_type_names pi doc ctx_scalar_types.
   Definition ctx_schema := ast_to_type_system doc.
 
+  (** the name of a type inside the namespace ([local_type_names.get(n)], falling back to [n]) *)
+  Definition local_of (n : str) : str :=
+    match hm_get ctx_local_names n with Some l => l | None => n end.
+
   (** [.expect("Local type name not generated")] *)
   Definition with_local (d : adef) (k : str -> list decl) : res perr (list decl) :=
     match hm_get ctx_local_names (d_name d) with
@@ -424,10 +428,10 @@ Section Printer.
         if is_input t then Ok []
         else with_local d (fun local =>
                [mk_decl sec local (d_name d)
-                  (Some (union_text (map d_name (interface_implementers ctx_schema (d_name d)))))])
+                  (Some (union_text (map (fun o => local_of (d_name o)) (interface_implementers ctx_schema (d_name d)))))])
     | KUnion =>
         if is_input t then Ok []
-        else with_local d (fun local => [mk_decl sec local (d_name d) (Some (union_text (d_items d)))])
+        else with_local d (fun local => [mk_decl sec local (d_name d) (Some (union_text (map local_of (d_items d))))])
     | KEnum => with_local d (fun local => [mk_decl sec local (d_name d) None])
     | KInput => if is_input t then with_local d (fun local => [mk_decl sec local (d_name d) None]) else Ok []
     end.
